@@ -170,7 +170,7 @@ def block(ch, cfg, depth, ns, in_form=False):
             if cfg.get('iframes', True):
                 inner = E('html', {'lang': ch.pick(('fr', ''))} if ch.p(0.3) else {}, [
                     E('body', {}, block(ch, cfg, depth - 1, ns, False), ns=ns)], ns=ns)
-                rooted = ch.p(0.8) or cfg.get('iframe_rooted', False)
+                rooted = ch.p(0.6) or cfg.get('iframe_rooted', False)
                 out.append(E('iframe', {}, [inner] if rooted else block(ch, cfg, depth - 1, ns, False), ns=ns))
             else:
                 out.append(control(ch, cfg, ns))
